@@ -378,11 +378,14 @@ class H2Protocol:
 
     async def _create_stream(self, request: h2.events.RequestReceived) -> None:
         raw_path = b""  # A plain CONNECT request has no :path
+        protocol = None
         for name, value in request.headers:
             if name == b":method":
                 method = value.decode("ascii").upper()
             elif name == b":path":
                 raw_path = value
+            elif name == b":protocol":
+                protocol = value
 
         try:
             raw_path.decode("ascii")
@@ -391,6 +394,18 @@ class H2Protocol:
             # 3986), only this stream is at fault.
             self.connection.reset_stream(
                 request.stream_id, error_code=h2.errors.ErrorCodes.PROTOCOL_ERROR
+            )
+            await self._flush()
+            return
+
+        if method == "CONNECT" and protocol is not None and protocol.lower() != b"websocket":
+            # An extended CONNECT (RFC 8441) for something other than a
+            # WebSocket, which is all that is supported.
+            self.connection.send_headers(
+                request.stream_id,
+                [(b":status", b"400"), (b"content-length", b"0")]
+                + self.config.response_headers("h2"),
+                end_stream=True,
             )
             await self._flush()
             return
